@@ -10,6 +10,7 @@ verus! {
 //@include prelude/reads.rs
 //@include prelude/paths.rs
 //@path lsm_tree::InternalValue => InternalValue
+//@broadcast key_bytes_of_slice
 //@world tree.get tree.contains_key tree.size_of tree.iter tree.range tree.prefix memtable.get self.iter
 
 pub type World = RWorld;
@@ -51,7 +52,16 @@ impl MemtableArc {
     // point lookup in the local write set: newest version below `seqno`
     #[verifier::external_body]
     pub fn get(&self, key: &[u8], seqno: SeqNo, Tracked(w): Tracked<&mut RWorld>) -> (r: Option<InternalValue>)
-        ensures final(w).reads == old(w).reads.push(ReadEv { ks: 0, instant: seqno, scan: false, local: true }) { unimplemented!() }
+        ensures final(w).reads == old(w).reads.push(ReadEv { ks: 0, instant: seqno, scan: false, local: true }),
+                lview(r) == local_get(self.id@, key@, seqno) { unimplemented!() }
+}
+/// the newest local version of `key` below `seqno` in a transaction's local write set (lsm-tree Memtable::get: assumed)
+pub uninterp spec fn local_get(mt: int, key: Seq<u8>, seqno: u64) -> Option<(ValueType, Seq<u8>)>;
+pub open spec fn lview(o: Option<InternalValue>) -> Option<(ValueType, Seq<u8>)> { match o { Some(i) => Some((i.key.value_type, i.value@)), None => None } }
+pub open spec fn is_tomb(vt: ValueType) -> bool { vt == ValueType::Tombstone || vt == ValueType::WeakTombstone }
+/// C08 read-your-writes: a local version decides (a tombstone means absent), otherwise the snapshot answers
+pub open spec fn overlay(local: Option<(ValueType, Seq<u8>)>, snap: Option<Seq<u8>>) -> Option<Seq<u8>> {
+    match local { Some(l) => if is_tomb(l.0) { None } else { Some(l.1) }, None => snap }
 }
 pub struct Memtable { pub dummy: u8 }
 impl Memtable { #[verifier::external_body] pub fn new(id: u64) -> (r: Memtable) { unimplemented!() } }
@@ -64,12 +74,12 @@ impl LocalTable {
         ensures final(self).ks == old(self).ks, final(self).log@ == old(self).log@.push(LocalW { seqno: v.key.seqno, vt: v.key.value_type }) { unimplemented!() }
 }
 // HashMap<Keyspace, Arc<Memtable>>: per-keyspace local write sets; ghost view: keyspace id -> log of local writes
-pub struct TxMemtables { pub view: Ghost<Map<u64, Seq<LocalW>>> }
+pub struct TxMemtables { pub view: Ghost<Map<u64, Seq<LocalW>>>, pub ids: Ghost<Map<u64, int>> }
 pub struct HashMap { pub dummy: u8 }   // crate::HashMap alias: only `HashMap::default()` is used here
 impl HashMap { #[verifier::external_body] pub fn default() -> (r: TxMemtables) ensures r.view@ == Map::<u64, Seq<LocalW>>::empty() { unimplemented!() } }
 impl TxMemtables {
     #[verifier::external_body]
-    pub fn get(&self, k: &Keyspace) -> (r: Option<&MemtableArc>) ensures r is Some <==> self.view@.dom().contains(k.id) { unimplemented!() }
+    pub fn get(&self, k: &Keyspace) -> (r: Option<&MemtableArc>) ensures r is Some <==> self.view@.dom().contains(k.id), r matches Some(m) ==> m.id@ == self.ids@[k.id] { unimplemented!() }
     // R-HOF target of `entry(k).or_insert_with(|| Arc::new(Memtable::new(0)))`
     #[verifier::external_body]
     pub fn hof_entry_or_insert_with(&mut self, k: Keyspace, fresh: Arc<Memtable>) -> (r: &mut LocalTable)
@@ -79,7 +89,7 @@ impl TxMemtables {
 pub open spec fn opt_cloned(o: Option<&MemtableArc>) -> Option<MemtableArc> { match o { Some(m) => Some(*m), None => None } }
 
 #[verifier::external_body]
-fn ignore_tombstone_value(item: InternalValue) -> (r: Option<InternalValue>) ensures r is Some <==> !(item.key.value_type == ValueType::Tombstone || item.key.value_type == ValueType::WeakTombstone) { unimplemented!() }
+fn ignore_tombstone_value(item: InternalValue) -> (r: Option<InternalValue>) ensures r is Some <==> !(item.key.value_type == ValueType::Tombstone || item.key.value_type == ValueType::WeakTombstone), r matches Some(i) ==> i == item { unimplemented!() }
 
 pub struct BaseTransaction { pub db: Database, pub memtables: TxMemtables, pub nonce: SnapshotNonce, pub durability: Option<PersistMode>, pub seqno: SeqNo }
 /// every read event appended between two worlds: local lookups see every local write (SeqNo::MAX), tree reads
@@ -90,41 +100,49 @@ pub open spec fn tx_reads(o: RWorld, n: RWorld, instant: u64) -> bool {
     && (forall|i: int| o.reads.len() <= i < n.reads.len() ==> if (#[trigger] n.reads[i]).local && !n.reads[i].scan { n.reads[i].instant == u64::MAX } else { n.reads[i].instant == instant })
 }
 
+pub open spec fn key_of<K: AsRef<[u8]>>(k: &K, b: &[u8]) -> bool { call_ensures(<K as AsRef<[u8]>>::as_ref, (k,), b) }
+/// what a point read inside the transaction must answer for (keyspace id, key)
+pub open spec fn tx_view(t: &BaseTransaction, ks: u64, key: Seq<u8>) -> Option<Seq<u8>> {
+    overlay(if t.memtables.view@.dom().contains(ks) { local_get(t.memtables.ids@[ks], key, u64::MAX) } else { None }, snap_get(ks, key, t.nonce.instant))
+}
 //@extract src/tx/write_tx.rs :: Readable for BaseTransaction :: get world inherent optmap props=C08+C05
 //@contract
-    requires forall|k: &Keyspace| resolves(&keyspace, k) ==> ks_ok(k),
+    requires forall|k: &Keyspace| #[trigger] resolves(&keyspace, k) ==> ks_ok(k),
     ensures tx_reads(*old(w), *final(w), self.nonce.instant), // [C08:layered-read] [C05:tx-reads-at-its-own-instant]
         final(w).reads.len() > old(w).reads.len(),
+        r matches Ok(v) ==> exists|k: &Keyspace, b: &[u8]| #![trigger k.id, b@] resolves(&keyspace, k) && key_of(&key, b) && oview(v) == tx_view(self, k.id, b@), // [C08:get-is-own-writes-over-snapshot]
 //@end
 //@extract src/tx/write_tx.rs :: Readable for BaseTransaction :: contains_key world inherent optmap props=C08+C05
 //@contract
-    requires forall|k: &Keyspace| resolves(&keyspace, k) ==> ks_ok(k),
+    requires forall|k: &Keyspace| #[trigger] resolves(&keyspace, k) ==> ks_ok(k),
     ensures tx_reads(*old(w), *final(w), self.nonce.instant), // [C08:layered-read] [C05:tx-reads-at-its-own-instant]
         final(w).reads.len() > old(w).reads.len(),
+        r matches Ok(c) ==> exists|k: &Keyspace, b: &[u8]| #![trigger k.id, b@] resolves(&keyspace, k) && key_of(&key, b) && c == (tx_view(self, k.id, b@) is Some), // [C08:contains_key-agrees-with-get]
 //@end
 //@extract src/tx/write_tx.rs :: Readable for BaseTransaction :: size_of world inherent optmap props=C08+C05
 //@contract
-    requires forall|k: &Keyspace| resolves(&keyspace, k) ==> ks_ok(k),
+    requires forall|k: &Keyspace| #[trigger] resolves(&keyspace, k) ==> ks_ok(k),
     ensures tx_reads(*old(w), *final(w), self.nonce.instant), // [C08:layered-read] [C05:tx-reads-at-its-own-instant]
         final(w).reads.len() > old(w).reads.len(),
+        r matches Ok(c) ==> exists|k: &Keyspace, b: &[u8]| #![trigger k.id, b@] resolves(&keyspace, k) && key_of(&key, b) && c == olen(tx_view(self, k.id, b@)), // [C08:size_of-agrees-with-get]
 //@end
 //@extract src/tx/write_tx.rs :: Readable for BaseTransaction :: iter world inherent optmap props=C08+C05
 //@contract
-    requires forall|k: &Keyspace| resolves(&keyspace, k) ==> ks_ok(k),
+    requires forall|k: &Keyspace| #[trigger] resolves(&keyspace, k) ==> ks_ok(k),
     ensures r.iter.at@ == self.nonce.instant && r.nonce.instant == self.nonce.instant, // [C05:tx-reads-at-its-own-instant]
         r.iter.local@ is Some ==> r.iter.local@ == Some(self.seqno), // [C08:scan-merges-local-writes-up-to-own-seqno]
         tx_reads(*old(w), *final(w), self.nonce.instant),
 //@end
 //@extract src/tx/write_tx.rs :: Readable for BaseTransaction :: range world inherent optmap props=C08+C05
 //@contract
-    requires forall|k: &Keyspace| resolves(&keyspace, k) ==> ks_ok(k),
+    requires forall|k: &Keyspace| #[trigger] resolves(&keyspace, k) ==> ks_ok(k),
     ensures r.iter.at@ == self.nonce.instant && r.nonce.instant == self.nonce.instant, // [C05:tx-reads-at-its-own-instant]
         r.iter.local@ is Some ==> r.iter.local@ == Some(self.seqno), // [C08:scan-merges-local-writes-up-to-own-seqno]
         tx_reads(*old(w), *final(w), self.nonce.instant),
 //@end
 //@extract src/tx/write_tx.rs :: Readable for BaseTransaction :: prefix world inherent optmap props=C08+C05
 //@contract
-    requires forall|k: &Keyspace| resolves(&keyspace, k) ==> ks_ok(k),
+    requires forall|k: &Keyspace| #[trigger] resolves(&keyspace, k) ==> ks_ok(k),
     ensures r.iter.at@ == self.nonce.instant && r.nonce.instant == self.nonce.instant, // [C05:tx-reads-at-its-own-instant]
         r.iter.local@ is Some ==> r.iter.local@ == Some(self.seqno), // [C08:scan-merges-local-writes-up-to-own-seqno]
         tx_reads(*old(w), *final(w), self.nonce.instant),
